@@ -64,46 +64,63 @@ fn tokens_max_len(_tier: &str) -> u32 {
 }
 
 /// thorough adds every string of length 4 over a core of 20 structural tokens and of length 5 over a core of 10
-const CORE20: &[&str] = &["if", "then", "else", "for", "in", "return", "some", "satisfies", "between", "and", "not", "function", "(", ")", "[", "]", "{", ",", "..", "a"];
-const CORE10: &[&str] = &["for", "in", "return", "if", "(", ")", "[", "..", "-", "a"];
+const CORE20: &[&str] = &["if", "then", "else", "for", "in", "return", "some", "satisfies", "between", "and", "not", "function", "(", ")", "[", "]", "{", ",", "..", "a", "."];
+const CORE10: &[&str] = &["for", "in", "return", "if", "(", ")", "[", "..", "-", "a", "."];
+
+/// Token strings are rendered with one space between the tokens at all entry points and both scopes, and with every other
+/// choice of "space or nothing" in each gap (`in.a`, `1..5`, `a-b`, `for in.a`) at the expression and unary tests entry points.
+fn token_classes(tier: &str) -> Vec<(&'static [&'static str], u32)> {
+  let mut out: Vec<(&'static [&'static str], u32)> = (1..=tokens_max_len(tier)).map(|l| (TOKENS, l)).collect();
+  if tier == "thorough" {
+    out.push((CORE20, 4));
+    out.push((CORE10, 5));
+  }
+  out
+}
+
+fn variants_per_string(len: u32) -> u64 {
+  (ENTRY_POINTS.len() * 2) as u64 + 2 * ((1u64 << (len - 1)) - 1)
+}
 
 fn tokens_count(tier: &str) -> u64 {
-  let n = TOKENS.len() as u64;
-  let per = (ENTRY_POINTS.len() * 2) as u64;
-  let base = (1..=tokens_max_len(tier)).map(|l| n.pow(l)).sum::<u64>();
-  let extra = if tier == "thorough" { (CORE20.len() as u64).pow(4) + (CORE10.len() as u64).pow(5) } else { 0 };
-  (base + extra) * per
+  token_classes(tier).iter().map(|(a, l)| (a.len() as u64).pow(*l) * variants_per_string(*l)).sum()
 }
 
 fn tokens_case(tier: &str, idx: u64) -> (String, u64, u64) {
-  let n = TOKENS.len() as u64;
-  let per = (ENTRY_POINTS.len() * 2) as u64;
-  let mut s = idx / per;
-  let variant = idx % per;
-  let mut len = 1;
-  while len <= tokens_max_len(tier) {
-    let c = n.pow(len);
-    if s < c {
-      break;
+  let mut rest = idx;
+  for (alphabet, len) in token_classes(tier) {
+    let m = alphabet.len() as u64;
+    let per = variants_per_string(len);
+    let c = m.pow(len) * per;
+    if rest >= c {
+      rest -= c;
+      continue;
     }
-    s -= c;
-    len += 1;
+    let mut s = rest / per;
+    let variant = rest % per;
+    let mut toks = vec![];
+    for _ in 0..len {
+      toks.push(alphabet[(s % m) as usize]);
+      s /= m;
+    }
+    let spaced = (ENTRY_POINTS.len() * 2) as u64;
+    if variant < spaced {
+      return (toks.join(" "), variant / 2, variant % 2);
+    }
+    // gap pattern 1.. : bit k set = no space in gap k; entry point expression (0) or unary tests (3), scope 1
+    let v = variant - spaced;
+    let pattern = v / 2 + 1;
+    let entry = if v % 2 == 0 { 0 } else { 3 };
+    let mut text = String::new();
+    for (k, t) in toks.iter().enumerate() {
+      if k > 0 && (pattern >> (k - 1)) & 1 == 0 {
+        text.push(' ');
+      }
+      text.push_str(t);
+    }
+    return (text, entry, 1);
   }
-  let (alphabet, len): (&[&str], u32) = if len <= tokens_max_len(tier) {
-    (TOKENS, len)
-  } else if s < (CORE20.len() as u64).pow(4) {
-    (CORE20, 4)
-  } else {
-    s -= (CORE20.len() as u64).pow(4);
-    (CORE10, 5)
-  };
-  let m = alphabet.len() as u64;
-  let mut toks = vec![];
-  for _ in 0..len {
-    toks.push(alphabet[(s % m) as usize]);
-    s /= m;
-  }
-  (toks.join(" "), variant / 2, variant % 2)
+  (String::new(), 0, 0)
 }
 
 // ------------------------------------------------------------------------------------------------
@@ -407,6 +424,29 @@ pub const EXTREMES: &[&str] = &[
   "duration(\"-P999999999Y11M\")",
   "[1..2]",
   "function(p) p",
+  // 30.. : added after the round-4 review (values that only operators, properties and 4-argument built-ins reach)
+  "duration(\"P2D\")",
+  "duration(\"-PT14H1M\")",
+  "duration(\"P106751DT23H47M16.854775807S\")",
+  "duration(\"-P106751DT23H47M16.854775808S\")",
+  "duration(\"P9223372036854775807M\")",
+  "duration(\"-P9223372036854775807M\")",
+  "duration(\"P1M\")",
+  "time(\"02:30:00@Europe/Warsaw\")",
+  "time(\"00:00:00\")",
+  "date and time(\"999999999-12-31T23:59:59.999999999+14:00\")",
+  "date and time(\"-999999999-01-01T00:00:00-14:00\")",
+  "date and time(\"2021-03-28T01:30:00\")",
+  "date(\"2021-03-28\")",
+  "[date(\"2021-01-01\")..date(\"2021-12-31\")]",
+  "{a: 1, b: [null]}",
+  "[null, 1, \"a\", [2]]",
+  "(function(a: number, b) a)",
+  "2",
+  "time(10, 0, 0, duration(\"P2D\"))",
+  "time(10, 0, 0, duration(\"-PT23H59M59S\"))",
+  "date and time(\"2021-10-31T02:30:00@Europe/Warsaw\") + duration(\"PT1H\")",
+  "date and time(date(\"2021-03-28\"), time(\"02:30:00@Europe/Warsaw\"))",
 ];
 
 fn build_extremes(results: &mut std::fs::File) -> Vec<Value> {
@@ -447,13 +487,17 @@ fn bif_max_arity(tier: &str) -> u32 {
 }
 
 /// quick: arity 0..2 over all values, arity 3 over a 9-value core; thorough: arity 0..3 over all values, arity 4 over the core
-const CORE: &[usize] = &[0, 2, 4, 6, 9, 13, 15, 18, 21];
+const CORE: &[usize] = &[0, 2, 4, 6, 9, 13, 15, 18, 21, 30, 34, 24, 37];
+
+/// quick only: arity 4 over a 7-value core (a number, null, a string, a small duration, a date-time in a daylight-saving gap,
+/// a time in a named zone, a date), so that 4-argument forms such as time(h, m, s, offset) are reached on every change
+const CORE4: &[usize] = &[0, 3, 13, 30, 24, 37, 21];
 
 fn bif_tuples(tier: &str) -> u64 {
   let n = EXTREMES.len() as u64;
   let c = CORE.len() as u64;
   let full: u64 = (0..=bif_max_arity(tier)).map(|a| n.pow(a)).sum();
-  full + c.pow(bif_max_arity(tier) + 1)
+  full + c.pow(bif_max_arity(tier) + 1) + if tier == "thorough" { 0 } else { (CORE4.len() as u64).pow(4) }
 }
 
 fn bif_case(tier: &str, names: &[String], idx: u64) -> (String, Vec<usize>) {
@@ -479,13 +523,98 @@ fn bif_case(tier: &str, names: &[String], idx: u64) -> (String, Vec<usize>) {
   }
   if !found {
     let c = CORE.len() as u64;
-    for _ in 0..arity {
-      args.push(CORE[(t % c) as usize]);
-      t /= c;
+    if t < c.pow(arity) {
+      for _ in 0..arity {
+        args.push(CORE[(t % c) as usize]);
+        t /= c;
+      }
+    } else {
+      t -= c.pow(arity);
+      let c4 = CORE4.len() as u64;
+      for _ in 0..4 {
+        args.push(CORE4[(t % c4) as usize]);
+        t /= c4;
+      }
     }
   }
   let text = format!("{}({})", name, args.iter().map(|a| format!("v{}", a)).collect::<Vec<_>>().join(", "));
   (text, args)
+}
+
+// ------------------------------------------------------------------------------------------------
+// family 6: operators, properties, typed parameters and conversions over the extreme values
+// ------------------------------------------------------------------------------------------------
+
+/// (number of operand places, template); `#0 #1 #2` are replaced by the names of extreme values
+pub fn operator_templates() -> Vec<(u32, String)> {
+  let mut out: Vec<(u32, String)> = vec![];
+  for op in ["+", "-", "*", "/", "**", "=", "!=", "<", "<=", ">", ">=", "and", "or", "in"] {
+    out.push((2, format!("#0 {} #1", op)));
+  }
+  for t in [
+    "#0[#1]", "#0 in [#0..#1]", "#0 in (#1..#0)", "[#0..#1]", "#0 in (< #1)", "#0 in (>= #1)", "[#0, #1][item < #0]", "[#0, #1][item = #1]", "{a: #0, b: a + #1}", "for i in #0 return i + #1",
+    "some i in #0 satisfies i = #1", "every i in #0 satisfies i < #1", "#0(#1)", "#0(a: #1)", "[#0, #1] = [#1, #0]", "{k: #0} = {k: #1}", "sort([#0, #1], function(x, y) x < y)", "min(#0, #1)", "max([#0, #1])", "string(#0) + string(#1)",
+  ] {
+    out.push((2, t.to_string()));
+  }
+  for t in ["#0 between #1 and #2", "if #0 then #1 else #2", "#2 in [#0..#1]", "#0 + #1 - #2", "#0 - #1 = #2", "(#0 - #1) / #2", "#0 + #1 < #2", "[#0..#1] = [#0..#2]", "#0 in (#1, #2)"] {
+    out.push((3, t.to_string()));
+  }
+  out.push((1, "-#0".to_string()));
+  out.push((1, "- - #0".to_string()));
+  out.push((1, "#0 + #0".to_string()));
+  out.push((1, "#0 - #0".to_string()));
+  out.push((1, "#0 = #0".to_string()));
+  out.push((1, "#0 < #0".to_string()));
+  out.push((1, "string(#0)".to_string()));
+  out.push((1, "[#0][1]".to_string()));
+  out.push((1, "#0[1]".to_string()));
+  out.push((1, "#0[-1]".to_string()));
+  out.push((1, "#0[0]".to_string()));
+  out.push((1, "#0[true]".to_string()));
+  out.push((1, "#0()".to_string()));
+  for prop in [
+    "year", "month", "day", "weekday", "hour", "minute", "second", "time offset", "timezone", "days", "hours", "minutes", "seconds", "years", "months", "start", "end", "start included", "end included", "a", "b", "k",
+  ] {
+    out.push((1, format!("#0.{}", prop)));
+    out.push((1, format!("[#0].{}", prop)));
+  }
+  for ty in [
+    "number", "string", "boolean", "date", "time", "date and time", "days and time duration", "years and months duration", "Any", "Null", "list<number>", "list<Any>", "range<number>", "range<date>", "context<a: number>",
+    "function<number>->number",
+  ] {
+    out.push((1, format!("#0 instance of {}", ty)));
+    out.push((1, format!("(function(p: {}) p)(#0)", ty)));
+    out.push((1, format!("(function(p: {}) p)(p: #0)", ty)));
+    out.push((1, format!("(function(q, p: {}) [p, q])(#0, #0)", ty)));
+  }
+  out
+}
+
+fn operators_count(templates: &[(u32, String)]) -> u64 {
+  let n = EXTREMES.len() as u64;
+  templates.iter().map(|(a, _)| n.pow(*a)).sum()
+}
+
+fn operators_case(templates: &[(u32, String)], idx: u64) -> (String, Vec<usize>) {
+  let n = EXTREMES.len() as u64;
+  let mut t = idx;
+  for (a, tpl) in templates {
+    let c = n.pow(*a);
+    if t < c {
+      let mut args = vec![];
+      let mut text = tpl.clone();
+      for k in 0..*a {
+        let v = (t % n) as usize;
+        t /= n;
+        args.push(v);
+        text = text.replace(&format!("#{}", k), &format!("v{}", v));
+      }
+      return (text, args);
+    }
+    t -= c;
+  }
+  (String::new(), vec![])
 }
 
 // ------------------------------------------------------------------------------------------------
@@ -552,6 +681,65 @@ pub fn iteration_cases() -> Vec<String> {
       }
     }
   }
+  // temporal literals and constructor calls whose components sit at the limits of the integer types
+  {
+    let limits = [
+      "0", "1", "12", "13", "24", "60", "61", "999999999", "1000000000", "2147483647", "2147483648", "4294967295", "4294967296", "768614336404564650", "768614336404564651", "9223372036854775807", "9223372036854775808",
+      "18446744073709551615", "18446744073709551616", "1000000000000000000000000000000",
+    ];
+    for n in limits {
+      for sign in ["", "-"] {
+        for t in [
+          format!("P{}Y", n), format!("P{}M", n), format!("P{}Y{}M", n, n), format!("P1Y{}M", n), format!("P{}Y1M", n), format!("P{}D", n), format!("PT{}H", n), format!("PT{}M", n), format!("PT{}S", n), format!("PT0.{}S", n),
+          format!("P{}DT{}H{}M{}S", n, n, n, n), format!("PT{}.{}S", n, n),
+        ] {
+          out.push(format!("duration(\"{}{}\")", sign, t));
+          out.push(format!("@\"{}{}\"", sign, t));
+          out.push(format!("string(duration(\"{}{}\")) + string(- duration(\"{}{}\")) + string(duration(\"{}{}\") * 2)", sign, t, sign, t, sign, t));
+        }
+        for t in [
+          format!("date(\"{}{}-01-01\")", sign, n), format!("date(\"2020-{}-01\")", n), format!("date(\"2020-01-{}\")", n), format!("date({}{}, 1, 1)", sign, n), format!("date(2020, {}{}, 1)", sign, n), format!("date(2020, 1, {}{})", sign, n),
+          format!("time({}{}, 0, 0)", sign, n), format!("time(0, {}{}, 0)", sign, n), format!("time(0, 0, {}{})", sign, n), format!("time(0, 0, 0.{})", n), format!("time(\"{}:00:00\")", n), format!("time(\"00:{}:00\")", n),
+          format!("time(\"00:00:{}\")", n), format!("time(\"00:00:00.{}\")", n), format!("time(\"10:00:00{}{}:00\")", if sign.is_empty() { "+" } else { "-" }, n), format!("time(\"10:00:00+00:{}\")", n),
+          format!("time(10, 0, 0, duration(\"{}PT{}H\"))", sign, n), format!("time(10, 0, 0, duration(\"{}PT{}S\"))", sign, n), format!("date and time(\"{}{}-01-01T00:00:00\")", sign, n),
+          format!("date and time(\"2020-01-01T{}:00:00\")", n), format!("date and time(\"2020-01-01T00:00:00+{}:00\")", n), format!("date and time(date(\"2020-01-01\"), time(10, 0, 0, duration(\"{}PT{}H\")))", sign, n),
+          format!("date(\"2020-01-31\") + duration(\"{}P{}M\")", sign, n), format!("date(\"2020-01-31\") + duration(\"{}P{}D\")", sign, n), format!("date and time(\"2020-01-31T00:00:00\") + duration(\"{}P{}M\")", sign, n),
+          format!("date and time(\"2020-01-31T00:00:00@Europe/Warsaw\") + duration(\"{}PT{}S\")", sign, n), format!("time(\"10:00:00\") + duration(\"{}PT{}S\")", sign, n),
+          format!("years and months duration(date(\"{}{}-01-01\"), date(\"2020-01-01\"))", sign, n), format!("duration(\"P1D\") * {}{}", sign, n), format!("duration(\"P1M\") * {}{}", sign, n), format!("duration(\"P{}M\") / 0.001", n),
+          format!("duration(\"P{}D\") / duration(\"PT0.000000001S\")", n),
+        ] {
+          out.push(t.clone());
+          out.push(format!("{} = {}", t, t));
+          out.push(format!("string({})", t));
+        }
+      }
+    }
+  }
+  // binder names made of the keyword `in`, ordinary words and the additional name symbols, with and without spaces
+  {
+    let parts = ["in", "a", "item", "x"];
+    let seps = [".", "-", "+", "*", "/", "'", " ", "", " . ", "- "];
+    let mut names: Vec<String> = parts.iter().map(|p| p.to_string()).collect();
+    for a in parts {
+      for s1 in seps {
+        for b in parts {
+          names.push(format!("{}{}{}", a, s1, b));
+          for s2 in seps {
+            for c in ["in", "a"] {
+              names.push(format!("{}{}{}{}{}", a, s1, b, s2, c));
+            }
+          }
+        }
+      }
+    }
+    for n in &names {
+      out.push(format!("for {} in [1] return 1", n));
+      out.push(format!("some {} in [1] satisfies true", n));
+      out.push(format!("for i in [1], {} in [2] return i", n));
+      out.push(format!("{{{}: 1}}", n));
+      out.push(format!("function({}) 1", n));
+    }
+  }
   for t in [
     "for in in [1] return 1",
     "for in in in return in",
@@ -572,6 +760,12 @@ pub fn iteration_cases() -> Vec<String> {
     "for i in [] return partial[0]",
     "for i in [1, 2, 3] return sum(partial) + i",
     "for i in [[1]], j in i return j",
+    // recursion of a user-defined function: bounded depths, and without a base case
+    "{f: function(n) if n <= 0 then 0 else 1 + f(n - 1), r: f(10)}.r",
+    "{f: function(n) if n <= 0 then 0 else 1 + f(n - 1), r: f(100)}.r",
+    "{f: function(n) if n <= 0 then 0 else 1 + f(n - 1), r: f(200)}.r",
+    "{f: function(n) if n <= 0 then 0 else g(n - 1), g: function(n) f(n), r: f(200)}.r",
+    "{f: function(n) f(n + 1), r: f(1)}.r",
   ] {
     out.push(t.to_string());
   }
@@ -582,13 +776,14 @@ pub fn iteration_cases() -> Vec<String> {
 // worker and parent
 // ------------------------------------------------------------------------------------------------
 
-pub const FAMILIES: &[&str] = &["tokens", "edits", "towers", "bifs", "iteration"];
+pub const FAMILIES: &[&str] = &["tokens", "edits", "towers", "bifs", "iteration", "operators"];
 
 struct Ctx {
   tier: String,
   edits: Option<Edits>,
   bifs: Vec<String>,
   iteration: Vec<String>,
+  operators: Vec<(u32, String)>,
 }
 
 fn family_count(family: &str, ctx: &Ctx) -> u64 {
@@ -598,6 +793,7 @@ fn family_count(family: &str, ctx: &Ctx) -> u64 {
     "towers" => towers_count(&ctx.tier),
     "bifs" => ctx.bifs.len() as u64 * bif_tuples(&ctx.tier),
     "iteration" => ctx.iteration.len() as u64 * 2,
+    "operators" => operators_count(&ctx.operators),
     _ => 0,
   }
 }
@@ -621,6 +817,10 @@ fn family_describe(family: &str, ctx: &Ctx, idx: u64) -> J {
       json!({"family":family,"text":text,"arguments":args.iter().map(|a| EXTREMES[*a].chars().take(60).collect::<String>()).collect::<Vec<_>>()})
     }
     "iteration" => json!({"family":family,"text":ctx.iteration[(idx / 2) as usize],"scope":idx % 2}),
+    "operators" => {
+      let (text, args) = operators_case(&ctx.operators, idx);
+      json!({"family":family,"text":text,"arguments":args.iter().map(|a| EXTREMES[*a].chars().take(60).collect::<String>()).collect::<Vec<_>>()})
+    }
     _ => J::Null,
   }
 }
@@ -631,6 +831,7 @@ fn make_ctx(family: &str, tier: &str) -> Ctx {
     edits: if family == "edits" { Some(Edits::new(tier)) } else { None },
     bifs: if family == "bifs" { bif_names() } else { vec![] },
     iteration: if family == "iteration" { iteration_cases() } else { vec![] },
+    operators: if family == "operators" { operator_templates() } else { vec![] },
   }
 }
 
@@ -650,7 +851,7 @@ pub fn worker(args: &[String]) {
   let mut done = 0u64;
   let scopes = [scope_of_kind(0), scope_of_kind(1)];
   // bif family: argument values bound once
-  let bif_scope = if family == "bifs" {
+  let bif_scope = if family == "bifs" || family == "operators" {
     let vals = build_extremes(&mut results);
     let mut c = FeelContext::default();
     for (i, v) in vals.into_iter().enumerate() {
@@ -689,6 +890,11 @@ pub fn worker(args: &[String]) {
           let sc = bif_scope.as_ref().unwrap();
           isolate::run_case(&progress, &mut results, idx, &describe, &mut || parse_and_evaluate(0, sc, &text));
         }
+        "operators" => {
+          let (text, _) = operators_case(&ctx.operators, idx);
+          let sc = bif_scope.as_ref().unwrap();
+          isolate::run_case(&progress, &mut results, idx, &describe, &mut || parse_and_evaluate(0, sc, &text));
+        }
         "iteration" => {
           let text = &ctx.iteration[(idx / 2) as usize];
           isolate::run_case(&progress, &mut results, idx, &describe, &mut || parse_and_evaluate(0, &scopes[(idx % 2) as usize], text));
@@ -713,8 +919,26 @@ fn classify(case: &J, kind: &str, detail: &str) -> String {
   // location of the panic, when the message carries one, else a shape of the input
   let what: String = match family {
     "bifs" => text.split('(').next().unwrap_or("").to_string(),
+    "operators" => {
+      // the template: operand names replaced by a place holder
+      let mut out = String::new();
+      let mut it = text.chars().peekable();
+      while let Some(c) = it.next() {
+        if c == 'v' && it.peek().map(|d| d.is_ascii_digit()).unwrap_or(false) && !out.ends_with(|p: char| p.is_alphanumeric()) {
+          while it.peek().map(|d| d.is_ascii_digit()).unwrap_or(false) {
+            it.next();
+          }
+          out.push('_');
+        } else {
+          out.push(c);
+        }
+      }
+      out
+    }
     "towers" => case.get("tower").and_then(|t| t.as_str()).map(|t| t.split(" depth").next().unwrap_or("").to_string()).unwrap_or_default(),
     "tokens" => format!("{}", case.get("entry_point").and_then(|e| e.as_str()).unwrap_or("")),
+    // a user-defined function that invokes itself unconditionally
+    "iteration" if text.contains("function(n) f(n + 1)") => "user-function-recursion-without-base-case".to_string(),
     _ => String::new(),
   };
   let msg: String = detail.chars().take(60).collect::<String>().replace(|c: char| c.is_ascii_digit(), "#");
